@@ -259,6 +259,10 @@ class PropertyCheck(object):
                 self.items.append(Item(o.clause, o.kind, o.pc, o.goal, o.func, o.lineno, o.note, dict(o.extra, trail=o.trail, target=t)))
             if not res.obligations and not res.undecided:
                 self.errors.append('vacuity: no obligations generated for %s' % t)
+            elif c.ensures and not res.undecided and not getattr(self, 'canary_mode', False) \
+                    and not any('/ensures[' in o.clause for o in res.obligations):
+                # every explored path ends in an exception: the postconditions were never checked
+                self.errors.append('vacuity: no path of %s reaches a normal exit; its postconditions are never checked' % t)
 
     def _add_parallel(self, E, t, c):
         from . import par
@@ -289,6 +293,9 @@ class PropertyCheck(object):
             self.items.append(it)
         if not records and not undec:
             self.errors.append('vacuity: no obligations generated for %s' % t)
+        elif c.ensures and not undec and not getattr(self, 'canary_mode', False) \
+                and not any('/ensures[' in (r.clause if k == 'local' else r['clause']) for k, r in records):
+            self.errors.append('vacuity: no path of %s reaches a normal exit; its postconditions are never checked' % t)
 
     def refute_ground(self, E, lengths=(0, 1, 2)):
         """Refutation mode for functions with undecided clauses (DESIGN.md 2.9)."""
